@@ -484,3 +484,6 @@ impl VerifTopic {
         }
     }
 }
+
+// ---- engine `match` (C15 partition part): one (pattern, name) test of the inline partition matching
+pub use crate::dcps::dcps_domain_participant::discovery_methods::verif_partition_pattern_is_match;
